@@ -67,6 +67,17 @@ CLAIMS = {
         'note': COMMON_NOTE + ' Database::get_tree(root_hash(t)) = t (content-addressed store contract); 0-2 transactions, 2 stakes.',
         'technique': 'bounded symbolic execution of rustc MIR + z3 field-equality obligations',
     },
+    'C12': {
+        'text': 'Symbolic execution of the MIR of OpCode::decode (+ its closures, read_byte) and OpCode::encode: any buffer '
+                'whose front decodes to an instruction re-encodes to exactly the consumed bytes (all 49 opcodes, every '
+                'operand, canonical PushIC lengths) and consumes >= 1 byte; every variant with symbolic operands encodes '
+                'and decodes back to itself consuming exactly its encoding (PushB > 255 bytes is not representable); no '
+                'reachable panic. Whole programs follow by induction on the instruction count.',
+        'design_ref': 'DESIGN.md §8 C12',
+        'note': COMMON_NOTE + ' Quick: buffers <= 40 bytes / selected PushB lengths; thorough: 260 bytes / all PushB lengths. '
+                'io::Read cursor, Vec<u8> writer and ethnum::U256 are modelled; 1200+ random native round trips validate them.',
+        'technique': 'bounded symbolic execution of rustc MIR (one path per opcode / operand length) + z3 bit-vector obligations',
+    },
     'C13': {
         'text': 'Symbolic execution of the MIR of load_stake_info / stake_is_consistent, the lock test of check_tx_validity, '
                 'next_unsealed and StakeSet::unlock_old: a stake is registered iff its data decodes, its first output is SYM '
